@@ -1011,6 +1011,7 @@ fn line_for(sc: &Scenario, out: &Outcome, group: &'static str) -> Line {
         format!("transport:{}", tr_s(sc.transport)),
         format!("waiters:{}", sc.waiters),
         format!("via:{}", if sc.via_drop { "drop+wait_for_shutdown" } else { "close" }),
+        format!("hold:{}", if sc.hold_ms >= 10000 { "12s" } else if sc.hold_ms >= 3000 { "6.5s" } else { "<0.4s" }),
     ];
     let t = &out.trace;
     let pos = |e: Ev| t.iter().position(|x| *x == e);
@@ -1184,6 +1185,26 @@ fn generate(opts: &Opts) -> Vec<(&'static str, Scenario)> {
             }
         }
     }
+    // long in-flight requests: the handler is entered before shutdown is
+    // requested, its client stays, and it is released only seconds later
+    // (beyond any plausible drain deadline); close() must still wait for it
+    // and the client must still read its complete response
+    let holds: &[u64] = if opts.thorough { &[6500, 12000] } else { &[6500] };
+    for &hold_ms in holds {
+        for transport in [Transport::H1, Transport::H2, Transport::Tls] {
+            for detached in [false, true] {
+                let conns = vec![
+                    (1, Script::InFlight { big: false, leave: Leave::Stay, nocx: false }),
+                    (2, Script::InFlight { big: true, leave: Leave::Stay, nocx: detached }),
+                    (3, Script::IdleKeepAlive),
+                ];
+                v.push((
+                    "long",
+                    Scenario { transport, detached, conns, waiters: 2, hold_ms, via_drop: hold_ms == 12000 },
+                ));
+            }
+        }
+    }
     // (transport, connections, scenarios per mode)
     let plan: &[(Transport, usize, usize)] = if opts.thorough {
         &[
@@ -1213,13 +1234,25 @@ fn run_all(list: Vec<(&'static str, Scenario)>, par: usize, out: &mut dyn Write)
     let n = list.len();
     let next = AtomicUsize::new(0);
     let results: Mutex<Vec<Option<Outcome>>> = Mutex::new((0..n).map(|_| None).collect());
+    // the long scenarios (shutdown held open for seconds) each get a thread of
+    // their own, started first, so that they overlap with everything else
+    let is_long = |i: usize| list[i].1.hold_ms >= 3000;
+    let short: Vec<usize> = (0..n).filter(|i| !is_long(*i)).collect();
     std::thread::scope(|scope| {
-        for _ in 0..par.min(n).max(1) {
+        for i in (0..n).filter(|i| is_long(*i)) {
+            let (list, results) = (&list, &results);
+            scope.spawn(move || {
+                let o = run_scenario(&list[i].1);
+                results.lock().unwrap()[i] = Some(o);
+            });
+        }
+        for _ in 0..par.min(short.len()).max(1) {
             scope.spawn(|| loop {
-                let i = next.fetch_add(1, Ordering::SeqCst);
-                if i >= n {
+                let k = next.fetch_add(1, Ordering::SeqCst);
+                if k >= short.len() {
                     break;
                 }
+                let i = short[k];
                 let o = run_scenario(&list[i].1);
                 results.lock().unwrap()[i] = Some(o);
             });
